@@ -94,6 +94,7 @@ func walkCmds(cfg CfgRec) []CmdRec {
 	for _, v := range []string{"unknown", "empty", "short", "nospace"} {
 		add(CmdRec{C: "BAD", A: v})
 	}
+	add(CmdRec{C: "EOF", A: "abort"})
 	add(CmdRec{C: "AUTH", A: "noarg"})
 	add(CmdRec{C: "AUTH", A: "badir"})
 	add(CmdRec{C: "AUTH", A: "unkmech"})
@@ -158,7 +159,7 @@ func Walk(srv *drv.Server, cfg CfgRec, rng *rand.Rand, maxSteps int) ([]TraceEve
 		case inAuth:
 			cmd = CmdRec{C: "ARESP", A: []string{"bytes", "bytes", "empty", "emptyline", "cancel", "bad"}[rng.Intn(6)]}
 			if rng.Intn(12) == 0 {
-				cmd = CmdRec{C: "EOF"}
+				cmd = CmdRec{C: "EOF", A: []string{"", "abort"}[rng.Intn(2)]}
 			}
 		case rng.Intn(100) < 55:
 			cmd = sensible(cfg, proj, rng)
@@ -191,7 +192,11 @@ func Walk(srv *drv.Server, cfg CfgRec, rng *rand.Rand, maxSteps int) ([]TraceEve
 		var out []byte
 		var sent []string
 		if k.EOF {
-			c.CloseWrite()
+			if k.Abort {
+				c.Abort()
+			} else {
+				c.CloseWrite()
+			}
 			if !c.WaitIdle() {
 				return nil, hist, fmt.Errorf("server not idle after EOF")
 			}
